@@ -237,6 +237,7 @@ func RunC02(c *Ctx, r *Report) {
 
 	c.truncatedToHeaderRule(r, prefix+"truncated-to-header", a.DecodeDecrypt)
 	c.wrapOfNilRule(r, prefix+"error.wrap-of-nil", scope, 10)
+	c.formatRecursionRule(r, prefix+"nocrash.term.format-recursion")
 
 	// rule 7: errors are errors
 	rule7 := prefix + "errors-are-errors"
